@@ -36,7 +36,7 @@ def run(ctx):
     ctx.rule = ("case = (size, extraction entry point [copy/hard_link/reflink x key/hash x checked/unchecked, reflink "
                 "with and without emulated FICLONE], mode, destination absent/present(marker bytes), content state "
                 "pristine / one of the C01 damage classes / missing, key present/absent). After every call the "
-                "destination is lstat'ed and read by the harness. Size sweep: pristine content of every size 2^k, 3*2^k and "
+                "destination is lstat'ed and read by the harness; look-alike neighbours (<name>.tmp, .part, .<name>.swp) must survive. Size sweep: pristine content of every size 2^k, 3*2^k and "
                 "their neighbours (k <= 17 quick, 21 thorough) through every copy/hard-link entry point. distinct = (entry point, mode, content state, "
                 "damage class, destination state, size)")
     ctx.assumptions = ["no reflink-capable filesystem: FICLONE is emulated for the success path",
@@ -101,6 +101,14 @@ def run(ctx):
                             k = "no-such-key" if state == "nokey" else key
                             reqs.append(retr.request(n, cache, k, sri, dest))
                             meta.append((n, dest, False))
+                        # files that merely LOOK related to a destination (<name>.tmp, <name>.part, .<name>.swp) are somebody
+                        # else's: they must survive every extraction untouched
+                        neigh = {}
+                        for (n, dest, _e) in meta:
+                            for nn in (dest + ".tmp", dest + ".part", os.path.join(ddir, "." + n + ".swp")):
+                                neigh[nn] = b"neighbour of " + n.encode()
+                                with open(nn, "wb") as f:
+                                    f.write(neigh[nn])
                         resps = ctx.batch(mode, reqs)
                         variant, m = drv.MODES[mode]
                         rreqs, rmeta = [], []
@@ -124,7 +132,18 @@ def run(ctx):
                             judge(ctx, n, mode, emu, state, spec, dest_present, size, data, current, dest, r, q,
                                   cache, key, algo)
                         # nothing but the named destinations may appear in the destination directory
-                        named = {os.path.basename(d) for (_n, d, _e) in meta + rmeta}
+                        for nn, want in neigh.items():
+                            try:
+                                okn = open(nn, "rb").read() == want
+                            except OSError:
+                                okn = False
+                            if not okn:
+                                ctx.violation(f"extract|{mode}|{state}|neighbour-of-destination-changed",
+                                              f"extraction ({state}) changed or removed {os.path.basename(nn)!r}, a file that only "
+                                              f"looks related to a destination", {"mode": mode, "state": state,
+                                                                                  "steps": [[mode, q] for q in reqs[:3]]})
+                                break
+                        named = {os.path.basename(d) for (_n, d, _e) in meta + rmeta} | {os.path.basename(x) for x in neigh}
                         extra = set(os.listdir(ddir)) - named
                         if extra:
                             ctx.violation(f"extract|{mode}|{state}|stray-file-next-to-destination",
